@@ -1,6 +1,6 @@
 #!/bin/bash
 # drop the fact caches of all trees except /repo's current one
-cd /verif; ./check C02 >/dev/null 2>&1
+cd /verif; VERIF_EVIDENCE=$(mktemp -d) ./check C02 >/dev/null 2>&1
 H=$(python3 -c "import sys; sys.path.insert(0,'/verif/engine/py'); from kv import facts; print(facts.tree_hash())")
 for d in /verif/.work/facts/*; do [ "$(basename $d)" = "$H" ] || rm -rf $d; done
 du -sh /verif/.work/facts
